@@ -38,6 +38,7 @@ fn by_name_history(rng: &mut Rng, table: &Table, st: &mut Stats) {
             (t, s)
         })
         .collect();
+    let overloaded_neg = rng.chance(1, 2);
     let use_flat = rng.chance(1, 2);
     // flat operands may also be uncompiled (their literals still carry their unary operators)
     let uncompiled = use_flat && rng.chance(1, 3);
@@ -127,6 +128,8 @@ fn by_name_history(rng: &mut Rng, table: &Table, st: &mut Stats) {
                 Pool::Deep(p) => {
                     let (tree, res) = match &new_tree {
                         Tree::Bin(o, _, _) => (Tree::bin(*o, p[i].0.clone(), p[j].0.clone()), p[i].1.clone().operate_binary(p[j].1.clone(), table[*o].name)),
+                        // the overloaded unary minus is the table's unary `-`, whatever that is
+                        Tree::Un(o, _) if table[*o].name == "-" && overloaded_neg => (Tree::un(*o, p[i].0.clone()), -p[i].1.clone()),
                         Tree::Un(o, _) => (Tree::un(*o, p[i].0.clone()), p[i].1.clone().operate_unary(table[*o].name)),
                         _ => unreachable!(),
                     };
@@ -162,6 +165,61 @@ fn by_name_history(rng: &mut Rng, table: &Table, st: &mut Stats) {
             hist.len() * 20 + seeds_txt.iter().map(|s| s.len()).sum::<usize>(),
             json!({"kind": "operator-application-by-name", "form": if use_flat {"FlatEx"} else {"DeepEx"}, "pool_seeds": seeds_txt, "steps": hist, "table": table_desc(table), "problem": p}),
         );
+    }
+}
+
+/// The overloaded `^` and unary `-` of deep expressions mean whatever the operator table says
+/// `^` and `-` mean (not necessarily a power, not necessarily an involution): the overload, the
+/// application by name and the parsed text agree, also with the constants 0 and 1 as operands.
+fn overloads_follow_the_table(rng: &mut Rng, table: &Table, st: &mut Stats) {
+    use crate::w64::{DW, W64};
+    let has_xor = table.iter().any(|o| o.name == "^" && o.bin.is_some());
+    let has_neg = table.iter().any(|o| o.name == "-" && o.un.is_some());
+    if !has_xor && !has_neg {
+        return;
+    }
+    let atoms = ["x", "y", "0", "1", "2", "1", "0", "x"];
+    let (a, b) = (*rng.pick(&atoms), *rng.pick(&atoms));
+    let vals = [W64(rng.range(2, 90) as i64), W64(rng.range(2, 90) as i64)];
+    st.bump("cases");
+    st.bump("overloads_compared_with_the_table");
+    let r = catch(|| -> Option<String> {
+        let ev = |e: exmex::ExResult<DW>| -> Option<(Vec<String>, W64)> {
+            let e = e.ok()?;
+            let n = e.var_names().len();
+            Some((e.var_names().to_vec(), e.eval(&vals[..n]).ok()?))
+        };
+        if has_xor {
+            let by_overload = ev(DW::parse(a).and_then(|l| DW::parse(b).and_then(|r| l ^ r)));
+            let by_name = ev(DW::parse(a).and_then(|l| DW::parse(b).and_then(|r| l.operate_binary(r, "^"))));
+            let by_text = ev(DW::parse(&format!("({a})^({b})")));
+            if by_overload != by_name || by_name != by_text {
+                return Some(format!("({a}) ^ ({b}): overloaded operator gives {by_overload:?}, operate_binary by name {by_name:?}, the parsed text {by_text:?}"));
+            }
+        }
+        if has_neg {
+            let k = rng.range(1, 3);
+            let mut by_overload = DW::parse(a);
+            let mut by_name = DW::parse(a);
+            let mut text = a.to_string();
+            for _ in 0..k {
+                by_overload = by_overload.and_then(|e| -e);
+                by_name = by_name.and_then(|e| e.operate_unary("-"));
+                text = format!("-({text})");
+            }
+            let (o, n, t) = (ev(by_overload), ev(by_name), ev(DW::parse(&text)));
+            if o != n || n != t {
+                return Some(format!("{k} times unary minus on {a}: overloaded operator gives {o:?}, operate_unary by name {n:?}, the parsed text {text} {t:?}"));
+            }
+        }
+        None
+    });
+    let p = match r {
+        Ok(p) => p,
+        Err(m) => Some(format!("panic: {m}")),
+    };
+    if let Some(p) = p {
+        st.violation(format!("overload|{}", p.chars().take(50).collect::<String>()), p.len(), json!({"kind": "overloaded-operator-vs-table", "table": table_desc(table), "values": format!("{vals:?}"), "problem": p}));
     }
 }
 
@@ -409,6 +467,7 @@ pub fn run(ctx: &Ctx) -> i32 {
                     }
                     install(&table);
                     by_name_history(rng, &table, st);
+                    overloads_follow_the_table(rng, &table, st);
                 }
                 2 => named_helpers(rng, st),
                 3 | 4 => arith_history(rng, st, true),
@@ -421,6 +480,7 @@ pub fn run(ctx: &Ctx) -> i32 {
     )
     .assume("assignments where the unsimplified reference is not finite are counted and not judged (the statement's proviso)")
     .require("by_name_steps", 10000)
+    .require("overloads_compared_with_the_table", 2000)
     .require("by_name_histories_on_uncompiled_flat_operands", 500)
     .require("unknown_operator_probes", 500)
     .require("named_helper_applications", 1000)
